@@ -19,7 +19,7 @@ ALPHA = [("open_rx_pipe", (0, A5)), ("open_rx_pipe", (0, B5)), ("open_rx_pipe", 
          ("auto_ack=", 0x3F), ("auto_ack=", 0x3E), ("set_auto_ack", (False, 0)), ("set_auto_ack", (True, 0)),
          ("listen=", True), ("listen=", False),
          ("address_length=", 3), ("address_length=", 5)]
-LITE_ALPHA = [x for x in ALPHA if x[0] not in ("auto_ack=", "set_auto_ack") and x != ("open_tx_pipe", S3)]
+LITE_ALPHA = [x for x in ALPHA if x[0] not in ("auto_ack=", "set_auto_ack")]
 
 
 def end_probes(nrf, chip, air, seq, lite):
@@ -45,7 +45,10 @@ def end_probes(nrf, chip, air, seq, lite):
         txd = any(n == chip.name and p == 0 for (n, p, how) in rx2)
         ev.append(dict(k="probe_rx", delivered=delivered, tx_delivered=txd, aw=aw, txa=st["txa"],
                        target=list(target[:aw]) if target is not None else []))
-    if in_tx and not lite and (st["aa"] & 1) and seq and seq[-1][0] == "open_tx_pipe":
+    # (rf24_lite opens pipe 0 for the ACK when it leaves RX mode, not in open_tx_pipe(): its documented order is
+    # open_tx_pipe(); listen = False; send() - the probe follows that order)
+    if in_tx and (st["aa"] & 1) and seq and (seq[-1][0] == "open_tx_pipe" if not lite else
+                                             (len(seq) >= 2 and seq[-1] == ("listen=", False) and seq[-2][0] == "open_tx_pipe")):
         peer = sim.Chip(air, "peer")
         peer.r[0] = 0x0B | (st["c"] & 0x0C)
         peer.r[1], peer.r[2], peer.r[3], peer.r[5], peer.r[6] = 0x3F, 0x02, st["aw"], st["ch"], st["rf"]
